@@ -322,6 +322,7 @@ class ContractCtx:
         self._requires = []
         self._ensures = []
         self._posts = []
+        self._posts_exc = []
         self._raises = []
         self._raises_only = None
         self._effects = []
@@ -369,6 +370,10 @@ class ContractCtx:
         """State postcondition: thunk() -> condition, evaluated at normal exit (verify) / assumed after effects (call)."""
         self._posts.append((label, thunk))
 
+    def post_exc(self, label, thunk):
+        """Exceptional postcondition: thunk(exc) -> condition, checked when the function exits with an exception."""
+        self._posts_exc.append((label, thunk))
+
     def effect(self, fn):
         """State change performed at a call site that uses this contract (call mode only)."""
         self._effects.append(fn)
@@ -397,6 +402,12 @@ class ContractCtx:
 
     def assume(self, cond):
         self.I.ctx.assume(_conj(self.I, cond))
+
+    def inline_instead(self):
+        """Call mode: do not use this contract at this call site, execute the callee's body."""
+        from .values import InlineInstead
+
+        raise InlineInstead()
 
     # ---------------------------------------------------------------- helpers for specs
     def eq(self, a, b):
